@@ -125,6 +125,7 @@ def c11(tier):
         for e in t["ev"]:
             k = e["a"] + ("" if e["ok"] else "!refused")
             ec[k] = ec.get(k, 0) + 1
+    recorded_fog_tests(rep, {"C11"})
     return rep.finish()
 
 
@@ -365,7 +366,7 @@ def c16(tier):
     rep = Report("C16", tier, "exploration")
     rep.assumptions += ["the definitions in spec/Codec.tla are a faithful reading of Yellow Paper appendix C and of the "
                         "binary node format", "exhaustive within the bounded domain, random beyond it"]
-    run_s2c(rep, "MC_Codec", CODEC_CFG.format(dom="DQuick" if tier == "quick" else "DFull"),
+    run_s2c(rep, "MC_Codec" if tier == "quick" else "MC_CodecFull", CODEC_CFG.format(dom="DQuick" if tier == "quick" else "DFull"),
             "harness.codec:replay_line", timeout=3400)
     rep.cov["exhaustive"] = True
     rep.cov["table_rows_checked"] = rep.cov.pop("behaviours_replayed", 0)
@@ -373,7 +374,7 @@ def c16(tier):
     need(rep, ["row:nib", "row:bits", "row:bytes", "shape:InvalidNode", "shape:kv", "shape:branch", "shape:leaf"])
     # (ii) longer random inputs through the real functions, recomputed by TLC
     mod = import_repo()
-    rows = codec.record_calls(mod, random.Random(seed() * 31 + 5), 150 if tier == "quick" else 3000)
+    rows = codec.record_calls(mod, random.Random(seed() * 31 + 5), 150 if tier == "quick" else 600)
     for i, r in enumerate(rows):
         r["id"] = i + 1
     wd = tlc.fresh_workdir("codec_trace")
@@ -402,7 +403,7 @@ def c16(tier):
     from . import checks_hexary as ch
 
     ch.run_spec_to_code(rep, ch.cfg(keys="KFull", look="LFull", vals="VFull", maxlive=4, features="FDirect",
-                                    invariants=["Canonical"], level=3 if tier == "quick" else 5, emit="EmitAll"),
+                                    invariants=["Canonical"], level=3 if tier == "quick" else 4, emit="EmitAll"),
                         ("classify",), owners={"C16"})
     rep.cov["table_rows_checked"] += rep.cov.pop("behaviours_replayed", 0)
     rep.cov["distinct_rows"] += rep.cov.pop("distinct_final_states_replayed", 0)
@@ -518,7 +519,7 @@ def binary_traces(rep, tier, owners):
 
     mod = import_repo()
     rng = random.Random(seed() * 977 + 3)
-    traces = [bd.gen_trace(mod, rng) for _ in range(150 if tier == "quick" else 3000)]
+    traces = [bd.gen_trace(mod, rng) for _ in range(150 if tier == "quick" else 800)]
     pipeline.code_to_spec(rep, "Trace_Binary", "Trace_Binary.cfg", traces, consts=("TraceConsts_Binary", bd.consts),
                           owners=owners, batches=8 if tier == "quick" else 16)
     counts = rep.cov.setdefault("trace_event_counts", {})
@@ -602,3 +603,37 @@ def recorded_smt_tests(rep, owners):
         "tests": sorted({t["test"].split("::")[-1].split("[")[0] for t in traces})}
     if p.returncode != 0:
         rep.note("the repository's sparse tree tests did not all pass under the recorder: " + last)
+
+
+def recorded_fog_tests(rep, owners):
+    """the repository's own tests that use HexaryTrieFog (test_fog.py and the walk tests) under
+    harness/recorder_fog.py, validated by TLC against Trace_Fog.tla"""
+    import json
+    import os
+    import subprocess
+    import sys
+
+    from . import fog_driver as fd
+    from .common import REPO, VERIF, MachineryError, scratch
+
+    out = os.path.join(scratch(), "recorded_fog.json")
+    env = dict(os.environ, PYTHONPATH=VERIF + os.pathsep + REPO, VERIF_RECORD_OUT=out, PYTHONHASHSEED="0",
+               HYPOTHESIS_STORAGE_DIRECTORY=os.path.join(scratch(), "hypothesis"))
+    p = subprocess.run([sys.executable, "-m", "pytest", "-q", "-p", "no:cacheprovider", "-p", "harness.recorder_fog",
+                        "--timeout=900", "tests/core/test_fog.py", "tests/core/test_hexary_trie_walk.py"],
+                       cwd=REPO, env=env, capture_output=True, text=True)
+    if not os.path.exists(out):
+        raise MachineryError("the fog recorder wrote nothing:\n" + p.stdout[-600:] + p.stderr[-300:])
+    d = json.load(open(out))
+    traces = d["traces"]
+    if len(traces) < 10:
+        raise MachineryError(f"only {len(traces)} fog lineages of the repository's tests were recorded")
+    pipeline.code_to_spec(rep, "Trace_Fog", "Trace_Fog.cfg", traces, consts=("TraceConsts_Fog", fd.consts),
+                          owners=owners, batches=8)
+    last = p.stdout.strip().splitlines()[-1] if p.stdout.strip() else ""
+    rep.cov["repository_tests_recorded"] = {
+        "pytest_summary": last, "lineages_validated": len(traces), "fresh_fogs_followed": d["tries_followed"],
+        "queries_recorded": sum(len(e["st"]["nu"]) + len(e["st"]["nr"]) for t in traces for e in t["ev"]),
+        "not_recorded": d["skipped"], "tests": sorted({t["test"].split("::")[-1].split("[")[0] for t in traces})}
+    if p.returncode != 0:
+        rep.note("the repository's fog tests did not all pass under the recorder: " + last)
